@@ -34,6 +34,12 @@ def instances(ctx, mask_only=False):
         inst = {"trees": trees, "r": rng.randint(1, 3), "kernel": rng.choice(["flat", "harmonic", "geometric"]),
                 "orient": rng.choice(["after", "before", "symmetric", "directional"]), "excluded": excluded, "mask": mask,
                 "nullify": mask and rng.random() < 0.5}
+        r2 = random.Random(rng.random())        # kernel arguments and adjacency dtype (drawn from a side stream)
+        inst["offset"] = r2.choice([0, 0, 0, 1, 2])
+        inst["knorm"] = r2.random() < 0.2
+        inst["adj"] = r2.choice(["float", "float", "int", "bool", "float32"])
+        if inst["offset"] >= inst["r"] and r2.random() < 0.7:
+            inst["r"] = min(4, inst["offset"] + r2.choice([1, 2]))
         if all(l in excluded for tr in trees for l in tr["lab"]):
             continue
         out.append(inst)
